@@ -44,6 +44,97 @@ def schedules(rng, ka, kb, cap):
     return [list(s) for s in seen]
 
 
+def method_table(w, L, seed):
+    """the seven workspace-accepting entry points for the two threads (which = 0, 1), deterministic in `seed`"""
+    import random
+    import spherical
+    import quaternionic
+    rng = random.Random(seed)
+    R1 = quaternionic.array(helpers.random_rotor(rng))
+    R2 = quaternionic.array((0.0, 0.6, 0.8, 0.0))
+    z1, z2 = np.exp(0.4j), np.exp(2.2j)
+    mA = helpers.make_modes(rng, -1, 3)
+    mB = helpers.make_modes(rng, 2, 4, (2,))
+
+    def mk(which):
+        R = R1 if which == 0 else R2
+        z = z1 if which == 0 else z2
+        m = mA if which == 0 else mB
+        return {
+            "d": lambda ws: (lambda: w.d(z, out=np.full(w.dsize, np.nan), workspace=ws)),
+            "D": lambda ws: (lambda: w.D(R, out=np.full(w.Dsize, np.nan + 0j), workspace=ws)),
+            "sYlm": lambda ws: (lambda: w.sYlm(-2 if which == 0 else 1, R, out=np.full(w.Ysize, np.nan + 0j), workspace=ws)),
+            "evaluate-Horner": lambda ws: (lambda: np.asarray(w.evaluate(m, R, workspace=ws, horner=True))),
+            "evaluate-matrix": lambda ws: (lambda: np.asarray(w.evaluate(spherical.Modes(helpers_pad(m.ndarray, L), spin_weight=m.spin_weight, ell_min=0, ell_max=L), R, workspace=ws, horner=False))),
+            "rotate-Horner": lambda ws: (lambda: w.rotate(m, R, workspace=ws, horner=True).ndarray),
+            "rotate-matrix": lambda ws: (lambda: w.rotate(m, R, workspace=ws, horner=False).ndarray),
+        }
+    return mk
+
+
+def fresh_process_child(na, nb, pre, seed):
+    """(runs in a NEW interpreter) the very first two library calls of the process, interleaved: thread A runs `pre` steps, then
+    thread B runs to completion, then A finishes.  Afterwards the same calls are made alone; prints a JSON verdict."""
+    import json
+    import spherical
+    L = 4
+    w = spherical.Wigner(L)
+    mk = method_table(w, L, seed)
+    sched.install()
+    try:
+        wsA, wsB = w.new_workspace(), w.new_workspace()
+        res = sched.run_threads([mk(0)[na](wsA), mk(1)[nb](wsB)], [0] * pre + [1] * 200 + [0] * 200)
+    finally:
+        sched.uninstall()
+    out = {"A": na, "B": nb, "pre": pre, "bad": []}
+    for i, (kind, val) in enumerate(res):
+        name = (na, nb)[i]
+        ref = mk(i)[name](w.new_workspace())()
+        if kind == "raise":
+            out["bad"].append({"thread": i, "what": "raised", "detail": repr(val)[:200]})
+        else:
+            ok = helpers.bits_equal(np.asarray(val), np.asarray(ref)) if "matrix" not in name else np.allclose(val, ref, rtol=1e-13, atol=1e-13, equal_nan=False)
+            if not ok:
+                out["bad"].append({"thread": i, "what": "differs", "max_abs_diff": float(np.nanmax(np.abs(np.asarray(val) - np.asarray(ref)))) if np.asarray(val).shape == np.asarray(ref).shape else None})
+    print("C10FRESH " + json.dumps(out))
+
+
+def fresh_process_stratum(run, quick):
+    """state that is initialised lazily on first use lives outside every workspace: the FIRST calls of a process are interleaved
+    too (each schedule in a new interpreter), and compared with the same calls made alone afterwards"""
+    import json
+    import os
+    import subprocess
+    import sys
+    from concurrent.futures import ThreadPoolExecutor
+    pairs = [("sYlm", "sYlm"), ("evaluate-Horner", "evaluate-matrix")] + ([] if quick else [("D", "D"), ("rotate-Horner", "sYlm"), ("evaluate-matrix", "evaluate-Horner"), ("d", "rotate-matrix")])
+    jobs = [(na, nb, pre) for na, nb in pairs for pre in (range(0, 9) if quick else range(0, 14))]
+    verif = os.path.dirname(os.path.dirname(os.path.dirname(os.path.abspath(__file__))))
+    seed = run.rng.randrange(10 ** 6)
+
+    def one(job):
+        na, nb, pre = job
+        code = f"import sys; sys.path.insert(0, {verif!r}); from vlib.props import C10; C10.fresh_process_child({na!r}, {nb!r}, {pre}, {seed})"
+        r = subprocess.run([sys.executable, "-c", code], capture_output=True, text=True, timeout=900, cwd=verif, env=dict(os.environ))
+        for line in r.stdout.splitlines():
+            if line.startswith("C10FRESH "):
+                return job, json.loads(line[9:]), None
+        return job, None, (r.stdout + r.stderr)[-400:]
+    with ThreadPoolExecutor(max_workers=8) as ex:
+        results = list(ex.map(one, jobs))
+    for (na, nb, pre), out, err in results:
+        run.gap_case("first-calls-of-a-process", (na, nb, pre), f"{na}||{nb}")
+        if out is None:
+            run.corr_break("gap:fresh-process", {"A": na, "B": nb, "pre": pre, "child_output": err})
+            continue
+        for b in out["bad"]:
+            name = (na, nb)[b["thread"]]
+            cause = "concurrent-call-raised" if b["what"] == "raised" else "result-depends-on-interleaving"
+            run.violation(cause, f"Wigner.{name}[workspace=]",
+                          {"A": na, "B": nb, "schedule": f"first calls of a new process: A runs {pre} steps, B runs to completion, A finishes", "thread": b["thread"], "seed": seed},
+                          "the result of the same call made alone", json.dumps(b))
+
+
 def check(run):
     import spherical
     import quaternionic
@@ -155,6 +246,7 @@ def check(run):
                         run.violation("result-depends-on-interleaving", f"Wigner.{n}[workspace=]", {"methods": names, "schedule": sc}, "sequential result", "differs or raised")
     finally:
         sched.uninstall()
+    run.attempt("gap:fresh_process", fresh_process_stratum, run, quick)
     run.assumptions += ["a compiled kernel is atomic w.r.t. other Python threads (numba kernels here do not release the GIL)",
                         "interleavings beyond the cap are sampled; the theorem (Props/Sched) covers all of them for the modelled footprints"]
 
